@@ -45,7 +45,7 @@ def current(ctx):
             continue
         sites = {}
         for call, tgt, text in sorted(edges, key=lambda e: (e[0].lineno, e[0].col_offset)):
-            if not tgt or tgt[0] in ('cencoding', 'speedups'):
+            if not tgt:
                 continue
             g = repo[tgt[0]].funcs[tgt[1]]
             pg = [p for p in _params(g) if p != 'self']
@@ -83,7 +83,7 @@ def dropped_argument_rule(ctx, rule, callers=None):
             if len(cur_sites) != len(ref_sites):
                 continue          # sites added/removed: not comparable one to one
             tmod, tq = callee_.split('.', 1)
-            dflt = _defaults(repo[tmod].funcs[tq]) if tq in repo[tmod].funcs else {}
+            dflt = _defaults(repo[tmod].funcs[tq]) if tq in repo[tmod].funcs and tmod not in ('cencoding', 'speedups') else {}
             for i, (rb, (cb, call)) in enumerate(zip(ref_sites, cur_sites)):
                 n += 1
                 dropped = [p for p in rb if p not in cb and dflt.get(p) != rb[p]]
@@ -318,6 +318,131 @@ def sibling_rule(ctx, rule, callers=None):
                        test[:60], [d[:100] for d in new[:3]] or 'no'), m.loc(node))
     return n
 
+def callsite_agreement_rule(ctx, rule, callers=None):
+    """call sites of one callee inside one function that passed the same expression for a parameter on
+    the reference tree must still pass the same expression as each other"""
+    if not os.path.exists(REF):
+        return 0
+    ref = json.load(open(REF))
+    cur = current(ctx)
+    n = 0
+    for caller, by_callee in sorted(ref.items()):
+        if callers is not None and not any(caller == c or caller.startswith(c + '.') or c == caller.split('.')[0] for c in callers):
+            continue
+        if caller not in cur:
+            continue
+        mod = caller.split('.')[0]
+        for callee_, ref_sites in sorted(by_callee.items()):
+            if len(ref_sites) < 2:
+                continue
+            cur_sites = cur[caller].get(callee_, [])
+            if len(cur_sites) != len(ref_sites):
+                continue
+            shared = [p for p in ref_sites[0] if all(p in rs and rs[p] == ref_sites[0][p] for rs in ref_sites)]
+            for p in shared:
+                n += 1
+                vals = [cb.get(p) for cb, _ in cur_sites]
+                ok = len(set(vals)) == 1
+                odd = [i for i, v in enumerate(vals) if vals.count(v) == 1] if not ok else []
+                call = cur_sites[odd[0]][1] if odd else cur_sites[0][1]
+                ctx.ob(rule, '%s->%s:call-sites-agree-on-%s' % (caller, callee_, p), ok,
+                       'the %d calls of %s in %s all passed `%s` for `%s`; now they pass %s' % (
+                           len(ref_sites), callee_, caller, ref_sites[0][p][:50], p, sorted(set(str(v)[:50] for v in vals))),
+                       ctx.repo[mod].loc(call))
+    return n
+
+
+STATE_FLAGS = {
+    ('cencoding._assemble_objects', 'have_null'): 'state of the list being assembled (does the current list hold a null), '
+                                                  'deliberately re-evaluated per element; not a summary of the loop',
+}
+
+
+def flag_accumulation_rule(ctx, rule, callers=None):
+    """a boolean flag set to a constant before a loop and consulted after it summarises *all* elements:
+    inside the loop it may only be set to the opposite constant, or-ed/and-ed with itself, or assigned right
+    before leaving the loop.  `flag = <per-element test>` makes the last element decide."""
+    n = 0
+    for m, q, f in ctx.repo.functions():
+        name = '%s.%s' % (m.name, q)
+        if callers is not None and not any(name == c or name.startswith(c + '.') or c == m.name for c in callers):
+            continue
+        for loop in [x for x in walk_no_nested(f) if isinstance(x, (ast.For, ast.While))]:
+            parent_body = _body_containing(f, loop)
+            if parent_body is None:
+                continue
+            i = parent_body.index(loop)
+            inits = {}
+            for st in parent_body[:i]:
+                if isinstance(st, ast.Assign) and len(st.targets) == 1 and isinstance(st.targets[0], ast.Name) \
+                        and isinstance(st.value, ast.Constant) and (isinstance(st.value.value, bool) or st.value.value in (0, 1)):
+                    inits[st.targets[0].id] = st.value.value
+            if not inits:
+                continue
+            read_after = set()
+            nonbool = set()
+            for st in parent_body[i + 1:]:
+                boolctx = set()
+                for x in ast.walk(st):
+                    if isinstance(x, (ast.If, ast.While, ast.IfExp)) and isinstance(x.test, ast.Name):
+                        boolctx.add(id(x.test))
+                    if isinstance(x, ast.UnaryOp) and isinstance(x.op, ast.Not) and isinstance(x.operand, ast.Name):
+                        boolctx.add(id(x.operand))
+                    if isinstance(x, ast.BoolOp):
+                        boolctx |= {id(v) for v in x.values if isinstance(v, ast.Name)}
+                for x in ast.walk(st):
+                    if isinstance(x, ast.Name) and isinstance(x.ctx, ast.Load):
+                        read_after.add(x.id)
+                        if id(x) not in boolctx:
+                            nonbool.add(x.id)
+            # only flags: every later use is a truth test
+            read_after -= nonbool
+            for blk in _blocks(loop.body):
+                for j, st in enumerate(blk):
+                    if not (isinstance(st, ast.Assign) and len(st.targets) == 1 and isinstance(st.targets[0], ast.Name)):
+                        continue
+                    v = st.targets[0].id
+                    if v not in inits or v not in read_after:
+                        continue
+                    if (name, v) in STATE_FLAGS:
+                        ctx.note('%s exemption %s:%s: %s' % (rule, name, v, STATE_FLAGS[(name, v)]))
+                        continue
+                    n += 1
+                    val = st.value
+                    const = isinstance(val, ast.Constant) and (isinstance(val.value, bool) or val.value in (0, 1))
+                    selfref = any(isinstance(x, ast.Name) and x.id == v for x in ast.walk(val))
+                    leaves = any(isinstance(s2, (ast.Break, ast.Return, ast.Raise)) for s2 in blk[j + 1:])
+                    ctx.ob(rule, '%s:%s-accumulates-over-the-loop' % (name, v), const or selfref or leaves,
+                           '`%s` inside the loop over `%s`: the flag starts as %s and is read after the loop, so a per-element '
+                           'assignment lets the last element decide' % (norm(st)[:70], norm(getattr(loop, 'iter', getattr(loop, 'test', loop)))[:40], inits[v]),
+                           m.loc(st))
+    return n
+
+
+def _blocks(stmts):
+    yield stmts
+    for st in stmts:
+        if isinstance(st, (ast.FunctionDef, ast.AsyncFunctionDef, ast.ClassDef, ast.For, ast.While)):
+            continue
+        for fld in ('body', 'orelse', 'finalbody'):
+            sub = getattr(st, fld, None)
+            if isinstance(sub, list) and sub:
+                yield from _blocks(sub)
+        for h in getattr(st, 'handlers', []) or []:
+            yield from _blocks(h.body)
+
+
+def _body_containing(f, node):
+    for x in ast.walk(f):
+        for fld in ('body', 'orelse', 'finalbody'):
+            sub = getattr(x, fld, None)
+            if isinstance(sub, list) and any(y is node for y in sub):
+                return sub
+        for h in getattr(x, 'handlers', []) or []:
+            if any(y is node for y in h.body):
+                return h.body
+    return None
+
 
 def general_rules(ctx, tag, callers):
     """the generic regression rules restricted to the functions a property depends on"""
@@ -329,3 +454,5 @@ def general_rules(ctx, tag, callers):
     flag_identity_rule(ctx, tag + '.CS4', callers=callers)
     loop_exit_rule(ctx, tag + '.CS6', callers=callers)
     sibling_rule(ctx, tag + '.CS7', callers=callers)
+    callsite_agreement_rule(ctx, tag + '.CS8', callers=callers)
+    flag_accumulation_rule(ctx, tag + '.CS9', callers=callers)
